@@ -63,8 +63,10 @@ func index(xs []string, pred func(string) bool) int {
 	return -1
 }
 
-func eq(s string) func(string) bool       { return func(x string) bool { return x == s } }
-func contains(s string) func(string) bool { return func(x string) bool { return strings.Contains(x, s) } }
+func eq(s string) func(string) bool { return func(x string) bool { return x == s } }
+func contains(s string) func(string) bool {
+	return func(x string) bool { return strings.Contains(x, s) }
+}
 
 func hasReturn(n ast.Node) bool {
 	found := false
@@ -327,6 +329,61 @@ func main() {
 	}
 	loserWaits := hasClosedCh && iClosed > iTok && index(cs[2:], eq("<-p.closedCh")) >= 0
 
+	// queue.go: the heap order must be decided on time.Time values (Before/After/Compare), never on
+	// integers derived from them (UnixNano overflows outside 1677..2262), and a heap entry must hold
+	// nothing but the value and its index (no cached key that could go stale or wrap).
+	qpath := filepath.Join(*repo, "events", "queue", "queue.go")
+	qf, err := parser.ParseFile(fset, qpath, nil, 0)
+	if err != nil {
+		die("%v", err)
+	}
+	lessShape := ""
+	var itemFields []string
+	for _, d := range qf.Decls {
+		switch v := d.(type) {
+		case *ast.FuncDecl:
+			if v.Name.Name == "Less" && v.Recv != nil && strings.Contains(txt(v.Recv.List[0].Type), "queueHeap") {
+				if len(v.Body.List) != 1 {
+					die("queueHeap.Less: body is not a single return statement")
+				}
+				ret, ok := v.Body.List[0].(*ast.ReturnStmt)
+				if !ok || len(ret.Results) != 1 {
+					die("queueHeap.Less: body is not a single return statement")
+				}
+				switch txt(ret.Results[0]) {
+				case "pq[i].value.ScheduledTime().Before(pq[j].value.ScheduledTime())",
+					"pq[j].value.ScheduledTime().After(pq[i].value.ScheduledTime())",
+					"pq[i].value.ScheduledTime().Compare(pq[j].value.ScheduledTime()) < 0":
+					lessShape = "timeBefore"
+				default:
+					die("queueHeap.Less: order is not decided by Before/After/Compare on ScheduledTime() values: %s", txt(ret.Results[0]))
+				}
+			}
+		case *ast.GenDecl:
+			for _, sp := range v.Specs {
+				ts, ok := sp.(*ast.TypeSpec)
+				if !ok || ts.Name.Name != "queueItem" {
+					continue
+				}
+				st, ok := ts.Type.(*ast.StructType)
+				if !ok {
+					die("queueItem is not a struct")
+				}
+				for _, f := range st.Fields.List {
+					for _, n := range f.Names {
+						itemFields = append(itemFields, n.Name+" "+txt(f.Type))
+					}
+				}
+			}
+		}
+	}
+	if lessShape == "" {
+		die("queueHeap.Less not found")
+	}
+	if strings.Join(itemFields, ";") != "value T;index int" {
+		die("queueItem has fields %v, expected exactly {value T; index int}", itemFields)
+	}
+
 	b := func(x bool) string {
 		if x {
 			return "true"
@@ -348,6 +405,7 @@ func main() {
 	fmt.Fprintf(&o, "/-- stop/reset are polled before the clock is read; `NewTimer` is followed by the 3-way select. -/\ndef pollBeforeClock : Bool := %s\n\n", b(pollBeforeClock))
 	fmt.Fprintf(&o, "/-- `execute`: lock; Peek; `if !ok || peek != r {unlock; return}`; Pop; unlock; then `executeFn` outside the lock. -/\ndef executeShape : Bool := %s\n\n", b(executeShape))
 	fmt.Fprintf(&o, "/-- `Close`: the CAS winner closes `stopCh`, then takes the running token, then closes `closedCh`;\na call that lost the CAS waits for `closedCh`. -/\ndef closeLoserWaits : Bool := %s\n\n", b(loserWaits))
+	fmt.Fprintf(&o, "/-- queue.go: `queueHeap.Less` decides the order by `Before`/`After`/`Compare` on the `time.Time`\nvalues returned by `ScheduledTime()` (not on integers derived from them), and a heap entry holds exactly\n`value` and `index`. -/\ndef heapLessShape : String := %q\ndef queueItemFields : List String := [\"value\", \"index\"]\n\n", lessShape)
 	o.WriteString("/-- `verifhook.Point` call sites in source order. -/\ndef hookSites : List String := [\n")
 	for i, h := range hooks {
 		sep := ","
